@@ -8,7 +8,7 @@ from ..common import F, G
 from wcmatch import wcmatch as WM
 
 SPEC = {
-    'rule': ('every string up to the length bound over the reduced alphabet `\\ x u N { } 4 1 a * [ ] /`, and random '
+    'rule': ('every string up to the length bound over the reduced alphabet `\\ x u N { } 4 1 0 7 a * [ ] /`, and random '
              'compositions of complete/incomplete escape pieces, metacharacters and separators, is matched with RAWCHARS by '
              'the real fnmatch / globmatch / WcMatch (str and bytes, with and without FORCEWIN) and compared, over a name '
              'universe containing the decoded characters, the undecoded spellings and metacharacter-sensitive names, with '
@@ -26,8 +26,8 @@ SPEC = {
     'assumptions': ['the decoder in wcverif/rawdecode.py is the meaning C20 assigns to RAWCHARS'],
 }
 
-ALPHA = '\\xuN{}41a*[]/'
-NAMES = ['A', 'AA', 'A1', '1', '41', 'x41', 'u0041', 'U00000041', 'N', 'a', 'aa', 'x', 'u', '4', '{', '}', '{}', 'x4',
+ALPHA = '\\xuN{}4107a*[]/'
+NAMES = ['\x00', '\x07', 'a\x00', '\x008', '0', '00', '7', 'A', 'AA', 'A1', '1', '41', 'x41', 'u0041', 'U00000041', 'N', 'a', 'aa', 'x', 'u', '4', '{', '}', '{}', 'x4',
          '*', '[', ']', '\\', '\\x41', 'A/A', 'a/a', 'A/', '/', 'a/A', '!', '\x04', '\x01', '\t', 'xA', 'Ax', 'N{a}', 'a}',
          '1}', 'x/a', '101', 'u', 'A*', '\\A', 'a\\', '\\\\']
 
@@ -136,6 +136,8 @@ PIECES = [
     ('\\t', L('t'), L('\t')), ('\\n', L('n'), L('\n')), ('\\a', L('a'), L('\a')), ('\\\\', L('\\'), L('\\')),
     ('\\x2a', L('x2a'), (('star',),)), ('\\x3f', L('x3f'), (('q',),)), ('\\52', L('52'), (('star',),)),
     ('\\q', L('q'), L('q')), ('\\*', L('*'), L('*')), ('\\?', L('?'), L('?')),
+    ('\\0', L('0'), L('\x00')), ('\\00', L('00'), L('\x00')), ('\\000', L('000'), L('\x00')), ('\\7', L('7'), L('\x07')),
+    ('\\x00', L('x00'), L('\x00')), ('\\377', L('377'), L('\xff')), ('\\x7f', L('x7f'), L('\x7f')), ('\\08', L('08'), L('\x008')),
     ('a', L('a'), L('a')), ('1', L('1'), L('1')), ('x', L('x'), L('x')), ('4', L('4'), L('4')),
     ('*', (('star',),), (('star',),)), ('?', (('q',),), (('q',),)),
     ('[\\x41b]', (('set', False, (('c', 'x'), ('c', '4'), ('c', '1'), ('c', 'b'))),),
